@@ -414,4 +414,63 @@ splits = {
 }
 for n, pats in splits.items():
     w(f"patterns-split/split-{n}.jsx", split_src, '{"optimize":true,"customElementPatterns":' + pats + '}')
+
+# ---- H. non-ASCII text in every position a name or string can occupy (multi-byte characters next to '-', '_', ':',
+# at the start and at the end; combining marks; astral-plane characters; case mappings that change length)
+uni = ["é", "été", "sélection-été", "-é", "é-", "a-é-b", "价格-单位", "😀", "x-😀-y", "áb", "ß-ẞ", "İi", "ﬁ-ﬂ", "ñ_ü", "α:β"]
+def jsx_name_ok(u):  # usable inside a JSX attribute / directive name (identifier characters and '-')
+    return all(c.isalnum() or c in "-_" for c in u) and not u[0].isdigit() and u[0] != "-"
+names = [u for u in uni if jsx_name_ok(u)]
+w("unicode/directive-args.jsx", "\n".join(
+    [f"const a{i} = <Comp v-model={{[val, {u!r}]}} />;".replace("'", '"') for i, u in enumerate(uni)]
+    + [f"const b{i} = <input v-models={{[[val, {u!r}, ['lazy', {u!r}]]]}} />;".replace("'", '"') for i, u in enumerate(uni)]
+    + [f"const c{i} = <div v-custom={{[val, {u!r}, [{u!r}]]}} />;".replace("'", '"') for i, u in enumerate(uni)]))
+w("unicode/directive-names.jsx", "\n".join(
+    [f"const a{i} = <Comp v-model:{n}={{val}} />;" for i, n in enumerate(names)]
+    + [f"const b{i} = <div v-{n}:{n}_{n}={{val}} />;" for i, n in enumerate(names)]
+    + [f"const c{i} = <input v-model_{n}={{val}} />;" for i, n in enumerate(names)]))
+w("unicode/attrs-and-tags.jsx", "\n".join(
+    [f"const a{i} = <div {n}={{v}} data-{n}=\"{n}\" on{n}={{h}}>{n} {{x}} {n}</div>;" for i, n in enumerate(names)]
+    + [f"const b{i} = <x-{n} a=\"{u}\">{u}</x-{n}>;" for i, (n, u) in enumerate(zip(names, uni))]
+    + ["const É = 1, Ünï = 2;", "const c0 = <É>{k}</É>;", "const c1 = <Ünï a={1} />;", "const c2 = <ns:été a:é={1} />;"]))
+w("unicode/text.jsx", "\n".join([f"const t{i} = <div title=\"{u}\n   {u}\">  {u}\n   {u}  {{x}}</div>;" for i, u in enumerate(uni)]))
+w("unicode/types.tsx", hdr + "\n".join(
+    ["const C%d = defineComponent((p: { \"%s\": string; \"%sx\"?: number }, c: SetupContext<{ (e: \"%s\"): void }>) => {});" % (i, u, u, u) for i, u in enumerate(uni[:8])]
+    + ["interface Été { é: string; 'a-é'?: number } type 价格 = { 单位: boolean };", "const D = defineComponent((p: Été & 价格 = dflt) => {}); const dflt = {};"]), '{"resolveType":true,"optimize":true}')
+
+# ---- I. the same name declared in several scopes: namespaces, nested functions, blocks, modules
+w("namespaces/qualified.tsx", hdr + "\n".join([
+    "namespace Button { export interface Props { label: string; size?: number } export type Emits = { (e: 'press'): void } }",
+    "namespace Dialog { export interface Props { title: string; open: boolean } export type Emits = { (e: 'close'): void } }",
+    "namespace Outer { export namespace Inner { export interface Props { deep: string } } export interface Props { shallow: number } }",
+    "interface Props { top: boolean }",
+    "const B = defineComponent((p: Button.Props, c: SetupContext<Button.Emits>) => {});",
+    "const D = defineComponent((p: Dialog.Props, c: SetupContext<Dialog.Emits>) => {});",
+    "const O = defineComponent((p: Outer.Props) => {});", "const I = defineComponent((p: Outer.Inner.Props) => {});",
+    "const T = defineComponent((p: Props) => {});", "const M = defineComponent((p: Button.Props & Dialog.Props & Props) => {});",
+    "const X = defineComponent((p: { a: Button.Props['label']; b: Dialog.Props['open'] }) => {});",
+    "const P = defineComponent((p: Pick<Button.Props, 'label'> & Partial<Dialog.Props>) => {});",
+]), '{"resolveType":true,"optimize":true}')
+w("namespaces/shadowing.tsx", hdr + "\n".join([
+    "interface Props { level0: string } type Emits = { (e: 'l0'): void };",
+    "const C0 = defineComponent((p: Props, c: SetupContext<Emits>) => {});",
+    "function one() { interface Props { level1: number } type Emits = { (e: 'l1'): void }; const C1 = defineComponent((p: Props, c: SetupContext<Emits>) => {});",
+    "  function two() { interface Props { level2: boolean } const C2 = defineComponent((p: Props, c: SetupContext<Emits>) => {});",
+    "    { interface Props { level3: Date } const C3 = defineComponent((p: Props) => {}); }",
+    "    return () => { type Props = { level4: symbol }; return defineComponent((p: Props) => {}); }; }",
+    "  return two; }",
+    "namespace N { export interface Props { inNs: string } export const C = defineComponent((p: Props) => {}); }",
+    "class K { m() { interface Props { inMethod: string } return defineComponent((p: Props) => {}); } }",
+    "const after = defineComponent((p: Props) => {});",
+]), '{"resolveType":true,"optimize":true}')
+
+# ---- J. more distinct names than any bounded table holds: 2600 of each kind in one module, the first ones used
+# again at the end (a cache that evicts, wraps around or overflows does so within this one file)
+N = 2600
+w("many/directives.jsx", "\n".join([f"const d{i} = <div v-dir{i}_m{i}={{x}} />;" for i in range(N)] + [f"const e{i} = <div v-dir{i}_m{i}={{y}} v-show={{s}} />;" for i in range(40)] + ["const f = <input v-model_trim={v} />;"]))
+w("many/tags.jsx", "\n".join([f"const t{i} = <cust-tag{i} a={{x}}>{{k}}</cust-tag{i}>;" for i in range(N)] + [f"const u{i} = <cust-tag{i}>{{k}}</cust-tag{i}>;" for i in range(40)] + ["const v = <div><blockquote>{k}</blockquote></div>;"]), '{"optimize":true,"customElementPatterns":["^cust-tag1"]}')
+w("many/texts.jsx", "\n".join([f"const s{i} = <div title=\"title number {i}\">text number {i}\n   continued {i}</div>;" for i in range(N)] + [f"const r{i} = <span title=\"title number {i}\">text number {i}\n   continued {i}</span>;" for i in range(40)]))
+w("many/attrs.jsx", "const big = <div " + " ".join(f"attr{i}={{v{i}}}" for i in range(N)) + " />;\nconst again = <Comp " + " ".join(f"attr{i}={{w{i}}}" for i in range(300)) + ">{k}</Comp>;")
+w("many/components.jsx", "\n".join([f"const c{i} = <Comp{i} p={{x}}>{{f{i}()}}</Comp{i}>;" for i in range(800)] + [f"const g{i} = <Comp{i}>{{g()}}</Comp{i}>;" for i in range(40)]))
+w("many/types.tsx", hdr + "interface Big { " + " ".join(f"prop{i}{'?' if i % 3 == 0 else ''}: {['string', 'number', 'boolean', 'Date', '() => void'][i % 5]};" for i in range(N)) + " }\ntype Ev = { " + " ".join(f"(e: 'ev{i}'): void;" for i in range(600)) + " }\nconst C = defineComponent((p: Big, c: SetupContext<Ev>) => {});\nconst D = defineComponent((p: Pick<Big, 'prop0' | 'prop1' | 'prop2599'>) => {});", '{"resolveType":true,"optimize":true}')
 print("generated under", os.path.normpath(root))
